@@ -57,8 +57,9 @@ def trig_axioms():
     return th, dict(ax, x=x, y=y, a=a, b=b, ph=ph, n=n)
 
 
-def rotation_theory(direction_of, spread_of, prefix="rotation", mults=(1,)):
-    G_th, G = generic_sum_theory(prefix + ".sums")
+def rotation_theory(direction_of, spread_of, prefix="rotation", mults=(1,), mutant=None):
+    """`mutant`: a deliberately false variant of one statement (self-test of the lemma engine only, see NOTES-C03.md)"""
+    G_th, G = generic_sum_theory(prefix + ".sums", mutant=mutant)
     A_th, A = trig_axioms()
     th = Theory(prefix)
     th.extend(G_th)
@@ -69,8 +70,8 @@ def rotation_theory(direction_of, spread_of, prefix="rotation", mults=(1,)):
     N, k, p, fi, j = z3.Ints("N_r k_r p_r fi_r j_r")
     grid = Grid(th0, D)
     sp = View2D(E, En, grid, N)
-    spr = View2D(E, En, grid, N, idx=lambda jj: (jj - k) % N)          # rotated by k bins
-    UNI = [N >= 1, D > 0, D < 180, z3.ToReal(N) * D == 360]
+    spr = View2D(E, En, grid, N, idx=lambda jj: (jj - (k + 1 if mutant == "rotate_by_k_plus_1" else k)) % N)          # rotated by k bins
+    UNI = [N >= 1, D > 0, D < 180] + ([z3.ToReal(N) * D == 360] if mutant != "non_uniform_grid" else [])
     ROT = [0 <= k, k <= N]
     INR = [0 <= j, j < N]
     jq = z3.Int("jq_r")
@@ -134,7 +135,7 @@ def rotation_theory(direction_of, spread_of, prefix="rotation", mults=(1,)):
 
         def gk(fn, jj):      # the same with the direction of bin (jj + k) mod N
             return z3.If(En(p, fi, jj), 0, E(p, fi, jj) * T.UF1[fn](ang((jj + k) % N)) * D)
-        coef = {"cos": (cphi, -sphi), "sin": (sphi, cphi)}
+        coef = {"cos": (cphi, -sphi if mutant != "sin_sign" else sphi), "sin": (sphi, cphi)}
         comb = lambda fn, jj: coef[fn][0] * g0("cos", jj) + coef[fn][1] * g0("sin", jj)
         point = th.direct(f"{tag}_moments.term_of_bin_j_plus_k", [th0, D, N, k, p, fi, j], [E, En], UNI + ROT + INR,
                           z3.And(gk("cos", j) == comb("cos", j), gk("sin", j) == comb("sin", j)),
@@ -165,7 +166,7 @@ def rotation_theory(direction_of, spread_of, prefix="rotation", mults=(1,)):
                            note="cyclic-shift lemma between the two")
             fin[fn] = th.direct(
                 f"{tag}_moments.{fn}.rotates_with_the_spectrum", [th0, D, N, k, p, fi], [E, En], UNI + ROT,
-                Mr[fn] == (cphi * M["cos"] - sphi * M["sin"] if fn == "cos" else sphi * M["cos"] + cphi * M["sin"]),
+                Mr[fn] == (cphi * M["cos"] + coef["cos"][1] * M["sin"] if fn == "cos" else sphi * M["cos"] + cphi * M["sin"]),
                 using=[u4.inst(), u1["cos"].inst(), u1["sin"].inst(),
                        G["lin2"].inst({G["a"]: 0, G["b"]: N, G["al"]: coef[fn][0], G["be"]: coef[fn][1]}, {G["g"]: g0("cos", V(0)), G["h"]: g0("sin", V(0))})],
                 note=("A' = A cos(m phi) - B sin(m phi)" if fn == "cos" else "B' = A sin(m phi) + B cos(m phi)") +
@@ -182,14 +183,14 @@ def rotation_theory(direction_of, spread_of, prefix="rotation", mults=(1,)):
                        note="C03's spread formula sqrt(2 - 2 sqrt(A^2 + B^2)) is unchanged")
     wind = z3.ToReal(T.ATAN2_WINDING(Av, Bv, phr))
     direc = th.direct("rotated_vector.direction_shifts_by_the_angle_modulo_360", [Av, Bv, phr], [], [z3.Or(Av != 0, Bv != 0)],
-                      T.to_z3(direction_of(Ar, Br)) == T.to_z3(direction_of(Av, Bv)) + phr * 180 / T.PI + 360 * wind,
+                      T.to_z3(direction_of(Ar, Br)) == T.to_z3(direction_of(Av, Bv)) + phr * 180 / T.PI + (360 * wind if mutant != "direction_without_winding" else 0),
                       using=[A["at_rot"].inst({A["a"]: Av, A["b"]: Bv, A["ph"]: phr})],
                       note="C03's direction formula atan2(B, A) in degrees: direction' = direction + angle + 360 n for an integer n (trusted arctan2 identity)")
     degs = th.direct("rotation_angle_in_degrees", [D, k], [], [], rad(phi) * 180 / T.PI == phi, note="(k D pi / 180) 180 / pi = k D")
     out.update(spread=spread, direc=direc, norm=norm, degs=degs, Av=Av, Bv=Bv, phr=phr)
     # ================= mirror image: E'[f, j] = E[f, (N-j) mod N] on a grid with theta_0 = 0 (theta_((N-j) mod N) = -theta_j modulo 360)
     tm = Theory(prefix.replace("rotation", "mirror"))
-    MIR = UNI + [th0 == 0]
+    MIR = UNI + ([th0 == 0] if mutant != "mirror_any_theta0" else [])
     spm = View2D(E, En, grid, N, idx=lambda jj: (N - jj) % N)
     wm = z3.If(j == 0, 0, 1)
     mirrored = grid[(N - j) % N]
@@ -212,7 +213,7 @@ def rotation_theory(direction_of, spread_of, prefix="rotation", mults=(1,)):
         ang = lambda jj: T.to_z3(_rad(sp, jj, mult))
         g0 = lambda fn, jj: z3.If(En(p, fi, jj), 0, E(p, fi, jj) * T.UF1[fn](ang(jj)) * D)
         gm = lambda fn, jj: z3.If(En(p, fi, jj), 0, E(p, fi, jj) * T.UF1[fn](ang((N - jj) % N)) * D)
-        sgn = {"cos": 1, "sin": -1}
+        sgn = {"cos": 1, "sin": -1 if mutant != "mirror_sin_sign" else 1}
         combm = lambda fn, jj: z3.RealVal(sgn[fn]) * g0(fn, jj) + z3.RealVal(0) * g0(fn, jj)
         pointm = tm.direct(f"{tag}_moments.term_of_bin_N_minus_j", [th0, D, N, p, fi, j], [E, En], MIR + INR,
                            z3.And(gm("cos", j) == combm("cos", j), gm("sin", j) == combm("sin", j)),
@@ -237,7 +238,7 @@ def rotation_theory(direction_of, spread_of, prefix="rotation", mults=(1,)):
             u4 = tm.direct(f"{tag}_moments.{fn}.mirrored_sum_is_the_sum_of_mirrored_terms", [th0, D, N, p, fi], [E, En], MIR, Mm == Sc(0, N),
                            using=[u2.inst(), G["mir"].inst({G["N"]: N}, {G["g"]: gm(fn, V(0))}), u3.inst()], note="mirror lemma for finite sums between the two")
             finm[fn] = tm.direct(
-                f"{tag}_moments.{fn}.mirrors_with_the_spectrum", [th0, D, N, p, fi], [E, En], MIR, Mm == (M0 if fn == "cos" else -M0),
+                f"{tag}_moments.{fn}.mirrors_with_the_spectrum", [th0, D, N, p, fi], [E, En], MIR, Mm == (M0 if fn == "cos" else z3.RealVal(sgn["sin"]) * M0),
                 using=[u4.inst(), u1.inst(),
                        G["lin2"].inst({G["a"]: 0, G["b"]: N, G["al"]: z3.RealVal(sgn[fn]), G["be"]: z3.RealVal(0)}, {G["g"]: g0(fn, V(0)), G["h"]: g0(fn, V(0))})],
                 note="A' = A" if fn == "cos" else "B' = -B")
